@@ -109,7 +109,8 @@ Ends(G, all, path, node, seq, i) ==
          IN Go(1, {i})
     [] node.k = "rep" ->
          LET want == IF node.ref = "" THEN -2 ELSE RefCount(all, node.ref, Append(path, i + 1))
-             lo == IF node.ref = "" THEN node.lo ELSE want
+             \* kind "upto": the two-sided form  body{lo, int(<ref>)}  - only the upper bound is computed
+             lo == IF node.ref = "" \/ node.kind = "upto" THEN node.lo ELSE want
              hi == IF node.ref = "" THEN node.hi ELSE want
          IN IF node.ref # "" /\ want < 0 THEN {}
             ELSE RepEnds(G, all, path, node, seq, {i}, 0, lo, hi)
